@@ -25,11 +25,13 @@ type Ctx struct {
 	nameCtr   int
 	assumpt   map[string]bool // modelling assumptions actually used (reported)
 	globals   []string
+	addrTags  int
+	addrTag   map[string]int
 }
 
 func newCtx() *Ctx {
 	c := &Ctx{declared: map[string]bool{}, structSrt: map[string]string{}, typeIDs: map[string]int{},
-		typeByID: map[int]types.Type{}, strConsts: map[string]string{}, heapSort: map[string]string{}, assumpt: map[string]bool{}}
+		typeByID: map[int]types.Type{}, strConsts: map[string]string{}, heapSort: map[string]string{}, assumpt: map[string]bool{}, addrTag: map[string]int{}}
 	c.decls = append(c.decls,
 		"(declare-sort Str 0)",
 		"(declare-fun slen (Str) "+bv64+")",
@@ -314,7 +316,14 @@ func (c *Ctx) boxFn(sort string) (string, string) {
 // address of a nested (by-value) struct or array field inside an object
 func (c *Ctx) addrFn(structKey, field string) string {
 	n := "addr_" + mangle(structKey) + "_" + field
-	c.declare(n, fmt.Sprintf("(declare-fun %s (Int) Int)", n))
+	if !c.declared[n] {
+		// addresses of by-value members: never nil, injective, distinct per member, and disjoint from
+		// allocated references (they live in the negative integers)
+		c.declare("addrtag", "(declare-fun addrtag (Int) Int)")
+		c.addrTags++
+		c.addrTag[n] = c.addrTags
+		c.declare(n, fmt.Sprintf("(declare-fun %s (Int) Int)\n(declare-fun %s!inv (Int) Int)", n, n))
+	}
 	return n
 }
 
